@@ -28,7 +28,7 @@ def build(rnd, tier, flags):
     r = gen.R(rnd)
     meta = progs.meta_of(flat)
     std = "f2008" if (meta["f08"] or g.o.f08) else r.pick(["f2003", "f2008"])
-    lo = layout.FreeOpts(trail_blanks=r.pick([0, 0, 25]), big_indent=r.pick([0, 0, 10]), cont=r.pick([0, 10, 20]), lead_amp=r.pick([0, 50, 100]), lit_break=r.pick([0, 30]),
+    lo = layout.FreeOpts(eol_variants=True, trail_blanks=r.pick([0, 0, 25]), big_indent=r.pick([0, 0, 10]), cont=r.pick([0, 10, 20]), lead_amp=r.pick([0, 50, 100]), lit_break=r.pick([0, 30]),
                          comments=r.pick([15, 30, 50]), trailing=r.pick([0, 15, 30]), blank_lines=r.pick([0, 10]),
                          cont_comments=r.pick([0, 40]), semis=r.pick([0, 15, 70]), indent=True, directives=r.pick([0, 30]),
                          names=gen.ALL_NAMES, excl=set(flags))
